@@ -12,6 +12,56 @@ from .model import op_local
 TRANSPARENT = {"into", "from", "clone", "new", "to_owned", "as_ref", "borrow", "branch", "deref_inner"}
 
 
+_CTX = {"lib": None, "known": None}
+
+
+def configure(lib, known):
+    """helper functions that did not exist when the tables were reviewed (not in `known`) are read through: a call of
+    one denotes what its body returns"""
+    _CTX["lib"] = lib
+    _CTX["known"] = known
+
+
+def _return_tree(cb, depth):
+    defs = cb.def_sites(0)
+    if len(defs) != 1:
+        return None
+    bb, kind, obj = defs[0]
+    if kind == "call":
+        return local_tree(cb, 0, depth, frozenset()) if False else ("call", (obj["func"].get("fn", {}).get("resolved") or obj["func"].get("fn", {}).get("path", "")),
+                                                                     [tree(cb, a, depth + 1) for a in obj.get("args", [])])
+    return local_tree_from_rv(cb, obj["rv"], depth)
+
+
+def local_tree_from_rv(b, rv, depth):
+    k = rv["k"]
+    if k in ("use", "cast"):
+        return tree(b, rv["o"], depth + 1)
+    if k in ("ref", "copyderef"):
+        return local_tree(b, rv["place"]["l"], depth + 1, frozenset())
+    if k == "agg":
+        if rv.get("agg") == "adt":
+            fields = rv.get("fields") or [str(i) for i in range(len(rv["ops"]))]
+            return ("adt", rv.get("adt"), rv.get("variant"), {f: tree(b, x, depth + 1) for f, x in zip(fields, rv["ops"])})
+        if rv.get("agg") in ("array", "tuple"):
+            return (rv["agg"], [tree(b, x, depth + 1) for x in rv["ops"]])
+    return ("none",)
+
+
+def _subst(t, args):
+    if not isinstance(t, tuple):
+        return t
+    if t[0] == "arg" and 1 <= t[1] <= len(args):
+        return args[t[1] - 1]
+    if t[0] == "adt":
+        return ("adt", t[1], t[2], {k: _subst(v, args) for k, v in t[3].items()})
+    if t[0] in ("array", "tuple"):
+        return (t[0], [_subst(v, args) for v in t[1]])
+    if t[0] == "call":
+        return ("call", t[1], [_subst(v, args) for v in t[2]])
+    return t
+
+
 def tree(b, o, depth=0, seen=None):
     if depth > 40:
         return ("deep",)
@@ -48,7 +98,13 @@ def local_tree(b, l, depth, seen):
             return inner
         if (last in TRANSPARENT or "Try>::branch" in callee) and args and not callee.startswith("instruction::"):
             return tree(b, args[0], depth + 1, seen)
-        return ("call", callee, [tree(b, a, depth + 1, seen) for a in args])
+        argt = [tree(b, a, depth + 1, seen) for a in args]
+        lib, known = _CTX["lib"], _CTX["known"]
+        if lib is not None and known is not None and callee not in known and lib.body(callee) is not None and "{closure" not in callee and depth < 30:
+            rt = _return_tree(lib.body(callee), depth + 1)
+            if rt is not None and rt[0] != "none":
+                return _subst(rt, argt)
+        return ("call", callee, argt)
     rv = d[2]["rv"]
     k = rv["k"]
     if k in ("use", "cast"):
